@@ -75,7 +75,10 @@ class World(object):
       for b in self.setup:
         g = d.apply(b(d) if callable(b) else b)
         log.append(H.stored_reprs(g))
-      self._base = {'snap': d.snapshot(), 'dump': d.dump(), 'init_log': log}
+      snap = d.snapshot()
+      self._base = {'snap': snap, 'dump': d.dump(), 'init_log': log,
+                    # what a document reloaded from the snapshot reports (origin L starts there)
+                    'dump_L': H.Doc.load(snap).dump()}
     return self._base
 
 
